@@ -1,5 +1,6 @@
 import GridVerif.Props.C09
 import GridVerif.Props.C09.Example
+import GridVerif.Props.C09.Gen
 
 #print axioms GridVerif.C09.reweighted_sum_is_integral
 #print axioms GridVerif.C09.angular_integral_exact
@@ -19,3 +20,10 @@ import GridVerif.Props.C09.Example
 #print axioms GridVerif.C09.mol_interp_is_sum
 #print axioms GridVerif.C09.spline_contract_satisfiable
 #print axioms GridVerif.C09.ex_H1
+#print axioms GridVerif.C09.gen_integrate_eq_model
+#print axioms GridVerif.C09.gen_components_eq_model
+#print axioms GridVerif.C09.gen_splines_eq_model
+#print axioms GridVerif.C09.gen_degrees_agree
+#print axioms GridVerif.C09.gen_reweighted_sum_is_integral
+#print axioms GridVerif.C09.gen_angular_integral_exact
+#print axioms GridVerif.C09.gen_components_recovered
